@@ -3,9 +3,9 @@ import vlib
 from checks import compiled_common as CC
 from checks import C07
 
-UNITS = ['Opcodes', 'Codec', 'Verifier', 'JitLogic', 'JitEnc', 'JitArms', 'JitMulDiv', 'JitMisc', 'ClMisc', 'JitFrame']
+UNITS = ['Opcodes', 'Codec', 'Verifier', 'Interp', 'JitLogic', 'JitEnc', 'JitArms', 'JitMulDiv', 'JitMisc', 'ClMisc', 'JitFrame']
 MODELS = ['theories/Verifier.vo', 'gen/JitLogic.vo', 'theories/X86Enc.vo', 'gen/JitEnc.vo', 'theories/X86Sem.vo', 'gen/JitArms.vo', 'theories/X86Seq.vo', 'gen/JitMulDiv.vo', 'gen/JitMisc.vo', 'theories/X86Stk.vo', 'gen/JitFrame.vo']
-PROOFS = ['theories/JitLogicProofs.v', 'theories/JitEncProofs.v', 'theories/JitArmsProofs.v', 'theories/JitMulDivProofs.v', 'theories/JitMiscProofs.v', 'theories/JitFrameProofs.v', 'theories/ClMiscProofs.v', 'theories/VerifierProofs.v', 'theories/InterpProofs.v']
+PROOFS = ['theories/JitLogicProofs.v', 'theories/JitEncProofs.v', 'theories/JitArmsProofs.v', 'theories/JitMulDivProofs.v', 'theories/JitMiscProofs.v', 'theories/JitFrameProofs.v', 'theories/ClMiscProofs.v', 'theories/ClStep.v', 'theories/JitStep.v', 'theories/JitRun.v', 'theories/VerifierProofs.v', 'theories/InterpProofs.v']
 ENGINE = 'jit'
 
 CL_HEADER = '''From Coq Require Import ZArith List Bool.
@@ -23,6 +23,53 @@ Definition check_cl (prog : list Z) (mbuff mem_ : region) (helpers : list (Z * Z
   | _ => 1
   end.
 '''
+
+
+JIT_HEADER = '''From Coq Require Import ZArith List Bool.
+From RbpfV Require Import MachInt Ebpf Cases Mem InterpDefs Stack Helpers Interp Isa X86Sem JitStep JitRun.
+Import ListNotations.
+Open Scope Z_scope.
+Definition data_of (m : mem) (k : nat) : list Z := r_data (nth k m {| r_base := 0; r_data := [] |}).
+(* the raw VM: r1 (rdi) = R10 = packet address, rbp = top of a 512-byte stack of the model's own; every other register 0 *)
+Definition check_jit (prog : list Z) (mem_ : region) (fuel v : Z) (xmem_ : list Z) : Z :=
+  let mb := {| r_base := 0x10; r_data := [] |} in
+  let E := mk_env prog (fun _ => None) (fun _ => None) mb mem_ 0x700000000000 [] in
+  let m0 := mk_mem mb mem_ 0x700000000000 {| r_base := 0x7f0000000000; r_data := [] |} in
+  let base := r_base mem_ in
+  let R0 : regs := fun x => if x =? 10 then base else if x =? 7 then base else if x =? 5 then 0x700000000200 else 0 in
+  match jit_steps (Z.to_nat fuel) E (R0, 0, m0) with
+  | ODone r m => if (r =? v) && list_eqb (data_of m 1) xmem_ then 0 else 1
+  | _ => 1
+  end.
+'''
+
+
+def jit_model_correspondence(chk, binary, cases):
+    """the hand-written composition JitStep.jit_exec / JitRun.jit_steps (what C03_step_simulates / C03_run_refines speak
+    about) evaluated inside Coq against the real JIT-compiled code on the raw VM, for programs without calls"""
+    from checks.interp_common import parse_answer, region
+    from vlib import zhex
+
+    def has_call(p):
+        return any(p[k] == 0x85 for k in range(0, len(p), 8))
+    sel = [c for c in cases if len(c.prog) <= 1600 and not c.ranges and not c.helpers and not has_call(c.prog)]
+    sel = sel[::1 if chk.tier == 'thorough' else 3]
+    ans = [parse_answer(x) for x in vlib.harness_run(binary, [c.line(engine='jit', kind='raw') for c in sel])]
+    terms, idx, outs = [], [], {}
+    for i, (c, a) in enumerate(zip(sel, ans)):
+        tag = a['raw'].split()[0].split(':')[0]
+        outs[tag] = outs.get(tag, 0) + 1
+        if a['status'] != 0 or 'L' not in a:
+            continue
+        memb = a['L'][0]
+        terms.append('(check_jit %s %s %d %d %s)' % (zhex(c.prog), region(memb, c.mem), c.budget, a['val'], zhex(a['mem'])))
+        idx.append(i)
+    bad, errors = vlib.coq_eval('C03jit', JIT_HEADER, terms, '(fun c => c)', shard_size=120)
+    if errors:
+        raise vlib.Broken('JIT model evaluation failed: ' + errors[0])
+    chk.cov['model_correspondence'] = {'what': 'JitRun.jit_steps (vm_compute) = the JIT-compiled code on the raw VM: value and final packet bytes',
+                                       'compared': len(terms), 'engine_outcomes': outs, 'disagreements': len(bad)}
+    return [(sel[idx[i]], ans[idx[i]]) for i, _ in bad]
 
 
 def cl_model_correspondence(chk, binary, cases):
@@ -104,6 +151,18 @@ def run(chk, engine=ENGINE, prop='C03'):
                         chk.violation({'kind': 'counterexample', 'request': c.line(engine='cl', kind='raw'), 'answer': a[:200], 'family': c.fam,
                                        'meaning': 'a program with an eBPF-to-eBPF call was not refused by Cranelift compilation'})
         cl_bad = []
+        if engine == 'jit':
+            try:
+                for (c, a) in jit_model_correspondence(chk, binary, cases):
+                    found = True
+                    if len(chk.violations) < 10:
+                        chk.violation({'kind': 'counterexample', 'request': c.line(engine='jit', kind='raw'), 'engine_answer': a['raw'][:200], 'family': c.fam,
+                                       'vm_kind': 'raw', 'meaning': 'the JIT-compiled code does not do what the model of the emitted sequences (JitRun.jit_steps, '
+                                       'which theorem C03_run_refines proves equal to the ISA) does on this input: tie B of the composition is broken'})
+            except vlib.Broken as e:
+                if res['proof_ok']:
+                    raise
+                chk.cov['model_correspondence'] = {'skipped': 'the composition model does not build on this tree: ' + str(e)[:200]}
         if engine == 'cl':
             try:
                 cl_bad = cl_model_correspondence(chk, binary, cases)
